@@ -49,6 +49,7 @@ DOCUMENTED = {"InvalidIdentifierException", "GenerationException", "Configuratio
 # witness per known finding. `expect` is the key of the known finding the shape exhibits (None = must be clean).
 # ---------------------------------------------------------------------------------------------------
 SHAPES = {
+    "ns_same_name_all_targets": ("namespace geo { point = record { x: i32; } }\nnamespace ui { point = record { y: i32; } hit = record { a: .geo.point; b: point; } }", "compile:same-name-in-two-namespaces"),
     "enum": ("e = enum { a; b; }", None),
     "enum_empty": ("e = enum { }", None),
     "flags_all_last": ("f = flags { x; y; n = none; a = all; }", None),
@@ -160,6 +161,12 @@ def classify(ast) -> list[str]:
             walk_types(a, f)
 
     PRIM = {"bool", "i8", "i16", "i32", "i64", "f32", "f64"}
+    simple = {}
+    for d in decls:
+        simple.setdefault(d["n"], set()).add(tuple(d["ns"]))
+    if any(len(v) > 1 for v in simple.values()):
+        # the generators whose file names carry no namespace component write both declarations to one path (C15)
+        keys.add("compile:same-name-in-two-namespaces")
     for d in decls:
         k = d["k"]
         alltypes = []
@@ -319,6 +326,10 @@ def _case(root: Path, case: dict) -> dict:
                 cx = judges.judge_cpp_tree(out, root / "tu", pool, [out / "cpp", out / "jni"], srcs, [out / "cpp", out / "jni"])
             res["cxx_jobs"] = int(cx.pop("__count__")[0])
             res["cxx"] = cx
+            if (out / "java").exists():
+                for rel, text in ANN_SOURCES.items():
+                    (out / "java" / rel).parent.mkdir(parents=True, exist_ok=True)
+                    (out / "java" / rel).write_text(text)
             res["javac"] = judges.javac_tree(out / "java", root / "jv")
     os.chdir("/")
     return res
@@ -467,14 +478,115 @@ def keyword_program(r: random.Random) -> str:
     return "\n".join(roles[k].replace("{n}", str(i)) for i, k in enumerate(picks))
 
 
-def config(r: random.Random | None):
+# one program that uses every clean feature shape; it is generated and judged under every configuration switch
+FEATURE_PROGRAM = """
+# kinds of things
+# @deprecated use other
+kind = enum { a_one; b_two; }
+perm = flags { can_read; can_write; nothing = none; everything = all; }
+oops = error { plain; with_code(code: i32); with_msg(msg: string detail: i32?); }
+prims = record { a: bool; b: i8; c: i16; d: i32; e: i64; f: f32; g: f64; h: string; i: binary; j: date; } deriving(eq)
+ordered = record { b: i8; e: i64; f: f32; g: f64; h: string; j: date; } deriving(eq, ord)
+opts = record { a: i32?; b: string?; c: list<i32>?; d: i64?; e: bool?; f: f64?; } deriving(eq)
+colls = record { a: list<i32>; b: set<string>; c: map<string, list<i64>>; k: kind; p: perm; o: ordered; } deriving(eq)
+empty_rec = record { }
+namespace deep.er {
+    inner = record { first_field: i32; other: ordered; }
+    # a listener
+    listener = interface +java { on_event(item: inner, k: kind) -> bool; on_done(); }
+}
+# the service
+service = main interface +cpp {
+    # does it
+    # @param a_value the value
+    # @returns something
+    do_it(a_value: i32, text: string?, when: date, blob: binary) -> i64?;
+    get(items: list<prims>, one: opts?) -> map<string, colls>;
+    static create() -> service;
+    const describe() -> string;
+    risky() throws oops -> i32;
+    plain_throw() throws;
+    listen(l: deep.er.listener, cb: (x: i32) -> bool);
+    flags_and_enums(k: kind, p: perm) -> perm;
+    async later(a: i32) -> i32;
+    async later_rec() throws oops -> deep.er.inner;
+}
+both = interface { async ping(a: i32) -> i32; poke(v: i32?) -> i32?; }
+callback = function (a: list<prims>) -> opts;
+thrower = function (a: i32) throws -> i32;
+"""
+
+def ns_collision_program(r: random.Random) -> str:
+    """equally named types in different namespaces, used side by side (C++ keeps them apart by namespace directory)"""
+    name = r.choice(["point", "item", "kind"])
+    spaces = r.sample(["geo", "ui", "geo.flat", "core.model", "ui.model"], r.choice([2, 3]))
+    kinds = [r.choice(["record", "record", "enum", "flags"]) for _ in spaces]
+    out = []
+    for sp, k in zip(spaces, kinds):
+        body = {"record": f"{name} = record {{ v{len(out)}: i32; }}", "enum": f"{name} = enum {{ a{len(out)}; b; }}", "flags": f"{name} = flags {{ x{len(out)}; y; }}"}[k]
+        out.append(f"namespace {sp} {{ {body} }}")
+    refs = [f".{sp}.{name}" for sp in spaces]
+    r.shuffle(refs)
+    user_ns = r.choice([None, spaces[-1], "app"])
+    fields = " ".join(f"f{i}: {t};" for i, t in enumerate(refs))
+    params = ", ".join(f"p{i}: {t}" for i, t in enumerate(refs))
+    users = [f"holder = record {{ {fields} l: list<{refs[0]}>; o: {refs[-1]}?; }}",
+             f"tracker = interface +cpp {{ track({params}) -> {refs[0]}; all() -> map<string, {refs[-1]}>; }}",
+             f"picker = function ({params}) -> bool;"]
+    users = r.sample(users, r.choice([1, 2, 3]))
+    body = " ".join(users)
+    out.append(f"namespace {user_ns} {{ {body} }}" if user_ns else body)
+    return "\n".join(out)
+
+
+ANN_SOURCES = {
+    "ann/lib/NonNull.java": "package ann.lib;\nimport java.lang.annotation.*;\n@Target({ElementType.TYPE_USE})\npublic @interface NonNull {}\n",
+    "ann/lib/Nullable.java": "package ann.lib;\nimport java.lang.annotation.*;\n@Target({ElementType.TYPE_USE})\npublic @interface Nullable {}\n",
+    "ann/lib/Generated.java": "package ann.lib;\nimport java.lang.annotation.*;\n@Target({ElementType.TYPE})\npublic @interface Generated {}\n",
+    "ann/lib/NativeError.java": "package ann.lib;\npublic class NativeError extends RuntimeException { public NativeError(String m) { super(m); } }\n",
+}
+
+# valid generator configuration switches (each is applied on top of the default configuration); the Java ones that name
+# user classes come with those classes (ANN_SOURCES), as a user's project would
+FEATURES = {
+    "java.interfaces": {"java": {"interfaces": True}},
+    "java.package-private": {"java": {"class_access_modifier": "package"}},
+    "java.non-final-records": {"java": {"use_final_for_record": False}},
+    "java.nullability-annotations": {"java": {"nonnull_annotation": "@ann.lib.NonNull", "nullable_annotation": "@ann.lib.Nullable"}},
+    "java.nonnull-annotation": {"java": {"nonnull_annotation": "@ann.lib.NonNull"}},
+    "java.class-annotation": {"java": {"annotation": "@ann.lib.Generated"}},
+    "java.native-lib": {"java": {"native_lib": "mylib"}},
+    "java.function-prefix": {"java": {"function_prefix": "Fn"}},
+    "java.no-string-serialization": {"java": {"string_serialization": False}},
+    "java.cpp-exception": {"java": {"cpp_exception": "ann.lib.NativeError"}},
+    "java.identifier-styles": {"java": {"identifier": {"field": "snake_case", "method": "PascalCase", "enum": "camelCase"}}},
+    "java.deep-package": {"java": {"package": "org.example.deep.pkg", "support_types_package": "support.types"}},
+    "cpp.flat-namespace": {"cpp": {"namespace": "lib"}},
+    "cpp.deep-namespace": {"cpp": {"namespace": "a::b::c::d"}},
+    "cpp.identifier-styles": {"cpp": {"identifier": {"type": "snake_case", "enum": "PascalCase", "field": "camelCase", "method": "camelCase"}}},
+    "cpp.file-style-pascal": {"cpp": {"identifier": {"file": "PascalCase"}}},
+    "cpp.file-style-camel": {"cpp": {"identifier": {"file": "camelCase"}}},
+    "cpp.header-extension": {"cpp": {"header_extension": "h"}},
+    "jni.no-loader": {"jni": {"loader": False}},
+    "jni.flat-namespace": {"jni": {"namespace": "glue"}},
+    "jni.identifier-styles": {"jni": {"identifier": {"class_name": "snake_case", "method": "snake_case", "field": "snake_case"}}},
+    "cppcli.nullability-attributes": {"cppcli": {"nullability_attributes": True}},
+    "cppcli.no-string-serialization": {"cppcli": {"string_serialization": False}},
+    "objc.strict-protocols": {"objc": {"strict_protocols": False}},
+    "objc.no-string-serialization": {"objc": {"string_serialization": False}},
+    "objc.no-prefix": {"objc": {"type_prefix": ""}},
+}
+
+
+def config(r: random.Random | None, features=()):
     v = {"support_lib_sources": True}
-    if r is not None and r.random() < 0.5:
-        style = r.choice(["snake_case", "PascalCase", "camelCase"])
-        v["cpp"] = {"identifier": {"file": style}}
-    if r is not None and r.random() < 0.3:
-        v["cpp"] = {**v.get("cpp", {}), "not_null": {"type": "::gsl::not_null", "header": "<gsl/pointers>"}} if False else v.get("cpp", {})
+    for f in features:
+        genrun.front_merge(v, json.loads(json.dumps(FEATURES[f])))
     return genrun.default_config(variant=v)
+
+
+def pick_features(r: random.Random):
+    return sorted(r.sample(sorted(FEATURES), r.choice([0, 1, 1, 2, 3])))
 
 
 # ---------------------------------------------------------------------------------------------------
@@ -501,8 +613,32 @@ def run(ctx):
         cases.append({"name": "shape:" + n, "text": SHAPES[n][0], "expect": SHAPES[n][1], "config": config(None), "targets": TARGETS})
     for i in range(ctx.n(12, 400)):
         r = random.Random(f"{ctx.seed}/c01/{i}")
-        cases.append({"name": f"random:{i}", "text": closed_program(r), "expect": None, "config": config(r), "targets": TARGETS,
+        fs = pick_features(r)
+        cases.append({"name": f"random:{i}", "text": closed_program(r), "expect": None, "config": config(r, fs), "features": fs, "targets": TARGETS,
                       "judge_sources": (not ctx.quick) or i % 3 == 0})
+    # equally named types in different namespaces, C++ target (which separates them by namespace directories)
+    for i in range(ctx.n(6, 80)):
+        r = random.Random(f"{ctx.seed}/c01/nscoll/{i}")
+        fs = pick_features(r) if i % 2 else []
+        fs = [f for f in fs if f.startswith("cpp.")]
+        cases.append({"name": f"ns-collision:{i}", "text": ns_collision_program(r), "expect": None, "config": config(r, fs), "features": fs, "targets": ["cpp"],
+                      "judge_sources": True, "ignore_shapes": ["compile:same-name-in-two-namespaces"]})
+    # every configuration switch on its own, over a program that uses every clean feature (and a random one)
+    # switches that only change Java / Objective-C / C++/CLI text are judged on that target alone (cheap: every run);
+    # the ones that reach the C++ or JNI glue need g++ over the whole tree and rotate through the quick tier
+    fl = sorted(FEATURES)
+    glue = [f for f in fl if f.startswith(("cpp.", "jni.")) or f in ("java.identifier-styles", "java.cpp-exception", "java.deep-package")]
+    for f in fl:
+        r = random.Random(f"{ctx.seed}/c01/feature/{f}")
+        if f in glue:
+            if ctx.quick and f not in [glue[(ctx.seed * 5 + k) % len(glue)] for k in range(3)]:
+                continue
+            targets = TARGETS
+        else:
+            targets = TARGETS if not ctx.quick else [f.split(".")[0]]
+        cases.append({"name": f"feature:{f}", "text": FEATURE_PROGRAM, "expect": None, "config": config(r, [f]), "features": [f], "targets": targets, "judge_sources": True})
+        if not ctx.quick:
+            cases.append({"name": f"feature:{f}:random", "text": closed_program(r), "expect": None, "config": config(r, [f]), "features": [f], "targets": TARGETS, "judge_sources": True})
     for i in range(ctx.n(10, 150)):
         r = random.Random(f"{ctx.seed}/c01/kw/{i}")
         cases.append({"name": f"keyword:{i}", "text": keyword_program(r), "expect": None, "config": config(r), "targets": ["cpp", "java"], "judge_sources": False})
@@ -517,6 +653,7 @@ def run(ctx):
         judged = r["kind"] == "ok" and r.get("cxx_jobs", 0) > 0
         ctx.count(key=c["text"], nontrivial=judged, sample={"name": c["name"], "text": c["text"][:300], "outcome": r["kind"], "judged_files": r.get("cxx_jobs", 0)})
         shape = classify(r["ast"]) if r["ast"] is not None else []
+        shape = [x for x in shape if x not in c.get("ignore_shapes", ())]
         inp = {"m.djinni": c["text"], "config": c["config"], "targets": c["targets"]}
         failures = []      # (key, what, detail)
         # (a) documented outcome
@@ -567,7 +704,7 @@ def run(ctx):
             bad = {**{k: v for k, v in r["cxx"].items()}, **({"java": r["javac"]} if r["javac"] else {})}
             if bad:
                 ks = [s for s in shape if s.startswith("compile:")]
-                key = "+".join(ks) if ks else "compile:unclassified"
+                key = "+".join(ks) if ks else ("compile:unclassified" if not c.get("features") else "compile:config:" + "+".join(c["features"]))
                 failures.append((key, "generated code does not compile", {"errors": {k: v[:2] for k, v in list(bad.items())[:4]}, "shape": shape}))
         exp = c["expect"]
         if exp and exp.startswith("documented:"):
